@@ -301,9 +301,58 @@ def same_content(a, saved):
 # ----------------------------------------------------------------------
 # Part P
 # ----------------------------------------------------------------------
+def reported_triple(o):
+    """the (fft, cp, used) the object reports through its public attributes, and whether it is valid"""
+    rep = (o.fft_size, o.cp_size, o.num_used_subcarriers)
+    ok = all(isinstance(v, (int, np.integer)) and not isinstance(v, bool) for v in rep) and \
+        ref_valid(int(rep[0]), int(rep[1]), int(rep[2]))
+    return (tuple(int(v) for v in rep) if ok else rep), ok
+
+
+def fresh_differential(chk, case, o, triple, off, ctx):
+    """indexes / modulate / demodulate of `o` bit-equal to a fresh object built with `triple`"""
+    from pyphysim.modulators.ofdm import OFDM
+    fft, cp, used = triple
+    fresh = OFDM(fft, cp, used)
+    x = syms(used + 1, off)
+    a, b = np.asarray(o.get_used_subcarrier_indexes()), np.asarray(fresh.get_used_subcarrier_indexes())
+    if a.shape != b.shape or not np.array_equal(a, b):
+        chk.fail(ctx + ("get_used_subcarrier_indexes", "differs_from_fresh_object"), case,
+                 observed=a, expected=b)
+    ta, tb = np.asarray(o.modulate(x.copy())), np.asarray(fresh.modulate(x.copy()))
+    if ta.shape != tb.shape or not np.array_equal(ta, tb):
+        chk.fail(ctx + ("modulate", "differs_from_fresh_object"), case, observed=ta[:6], expected=tb[:6])
+    else:
+        da, db = np.asarray(o.demodulate(tb.copy())), np.asarray(fresh.demodulate(tb.copy()))
+        if da.shape != db.shape or not np.array_equal(da, db):
+            chk.fail(ctx + ("demodulate", "differs_from_fresh_object"), case, observed=da[:6], expected=db[:6])
+
+
+def coherent_after_invalid_call(chk, case, o, off, ctx):
+    """INVALID_CALL_POLICY 2: the property quantifies over VALID triples only, so an invalid call may
+    raise anything or be accepted.  Afterwards the object must be coherent: if the triple it REPORTS is
+    valid, every relation holds for it and it equals a fresh object built with it; if the reported triple
+    is invalid, the next valid set_parameters must fully restore correct behaviour."""
+    rep, ok = reported_triple(o)
+    if not ok:
+        chk.outcome("after_invalid_call_reported", "invalid_triple")
+        rep = (8, 2, 4)
+        o.set_parameters(*rep)
+        got, ok2 = reported_triple(o)
+        if got != rep:
+            chk.fail(ctx + ("valid_set_parameters_does_not_restore_attributes",), case, observed=got, expected=rep)
+            return
+    else:
+        chk.outcome("after_invalid_call_reported", "valid_triple")
+    fresh_differential(chk, case, o, rep, off, ctx)
+    for nn in (rep[2] + 1, 2 * rep[2] + 3):
+        roundtrip_relations(chk, case, o, rep, nn, off, "c128", ctx)
+
+
 def check_params(chk, case):
     from pyphysim.modulators.ofdm import OFDM
     fft, cp, used, via = case["fft"], case["cp"], case["used"], case["via"]
+    off = case.get("phase_offset", 0.0)
     with chk.guard(("ofdm_params",), case):
         chk.count("eval_params")
         valid = ref_valid(fft, cp, used)
@@ -328,21 +377,29 @@ def check_params(chk, case):
             want = (fft, cp, fft if used is None else used)
             if got != want:
                 chk.fail(("ofdm_params", "attributes_not_stored", via), case, observed=got, expected=want)
-        else:
-            if exc is None:
-                why = ("cp" if not (0 <= cp <= fft) else "used")
-                chk.fail(("ofdm_params", "invalid_accepted", why, via), case,
-                         observed="accepted", expected="ValueError")
-            elif not isinstance(exc, ValueError):
-                chk.fail(("ofdm_params", "invalid_wrong_exception", type(exc).__name__, via), case,
-                         observed="%s: %s" % (type(exc).__name__, exc), expected="ValueError")
+            return
+    if valid:
+        return
+    # invalid triple: the call itself is free (outcome only); coherence afterwards is required
+    chk.count("n_invalid_calls")
+    why = "cp" if not (0 <= cp <= fft) else "used"
+    how = "accepted" if exc is None else "raised:" + type(exc).__name__
+    changed = "no_object" if obj is None else (
+        "object_changed" if via == "set_parameters" and reported_triple(obj)[0] != (8, 2, 4)
+        else ("object_unchanged" if via == "set_parameters" else "object_built"))
+    chk.outcome("invalid_call", (via + ":" + why, how, changed))
+    if obj is not None:
+        ctx = ("after_invalid_call", via)
+        with chk.guard(ctx, case):
+            coherent_after_invalid_call(chk, case, obj, off, ctx)
 
 
-def run_par_unit(chk, fft):
+def run_par_unit(chk, fft, off=0.0):
     for cp in range(-2, fft + 3):
         for used in [None] + list(range(-2, fft + 3)):
             for via in ("ctor", "set_parameters"):
-                check_params(chk, {"kind": "params", "fft": fft, "cp": cp, "used": used, "via": via})
+                check_params(chk, {"kind": "params", "fft": fft, "cp": cp, "used": used, "via": via,
+                                   "phase_offset": off})
 
 
 # ----------------------------------------------------------------------
@@ -773,30 +830,28 @@ def run_pair_unit(chk, i, j, off):
 # ----------------------------------------------------------------------
 class HState:
     """one OFDM object, the equaliser bound to it at creation, one TdlChannel, the
-    impulse-response object reported by the last 'tx' event"""
+    impulse-response object reported by the last 'tx' event; `model` = the triple the reference
+    interpreter holds (re-synchronised from the REPORTED attributes after an invalid call)"""
     def __init__(self):
         self.o = None
         self.eq = None
         self.ch = None
         self.ir = None
         self.error = None
+        self.model = None
+        self.model_valid = True
+        self.prev_model = None
+        self.invalid_calls = []       # (event, "raised:<Type>"|"accepted", "object_changed"|"object_unchanged")
 
 
-def h_model(hist):
-    """reference interpreter: the parameters the object must have after `hist`"""
-    t = None
-    for ev in hist:
-        if ev[0] in ("new", "set"):
-            if ref_valid(ev[1], ev[2], ev[3]):
-                t = (ev[1], ev[2], ev[3])
-        elif ev[0] == "attr":
-            i = ("fft_size", "cp_size", "num_used_subcarriers").index(ev[1])
-            t = tuple(ev[2] if j == i else t[j] for j in range(3))
-    return t
+def _is_invalid_set(ev):
+    return ev[0] == "set" and not ref_valid(ev[1], ev[2], ev[3])
 
 
-def h_enabled(triple):
+def h_enabled(triple, triple_valid=True):
     evs = [("set",) + t for t in H_TRIPLES if t != triple]
+    if not triple_valid:
+        return evs                    # only a valid set_parameters is required to work from here
     evs.extend(("set",) + t for t in H_INVALID)
     for name, v in H_ATTRS:
         i = ("fft_size", "cp_size", "num_used_subcarriers").index(name)
@@ -810,27 +865,33 @@ def h_enabled(triple):
 def h_build(hist, off, seed):
     from pyphysim.modulators.ofdm import OFDM, OfdmOneTapEqualizer
     st = HState()
-    done = []
+    ev = None
     try:
         for ev in hist:
-            done.append(ev)
-            t = h_model(done)
+            t = st.model
+            st.prev_model = t
             if ev[0] == "new":
                 st.o = OFDM(ev[1], ev[2], ev[3])
                 st.eq = OfdmOneTapEqualizer(st.o)
                 st.ch = new_channel(H_CH_DELAYS, H_CH_POWERS, seed)
+                st.model = (ev[1], ev[2], ev[3])
             elif ev[0] == "set":
                 if ref_valid(ev[1], ev[2], ev[3]):
                     st.o.set_parameters(ev[1], ev[2], ev[3])
+                    st.model, st.model_valid = (ev[1], ev[2], ev[3]), True
                 else:
+                    # the invalid call is free; the model follows what the object REPORTS afterwards
                     try:
                         st.o.set_parameters(ev[1], ev[2], ev[3])
-                        st.error = (ev, "invalid_accepted", None)
-                        return st
-                    except ValueError:
-                        pass
+                        how = "accepted"
+                    except Exception as e:  # noqa
+                        how = "raised:" + type(e).__name__
+                    st.model, st.model_valid = reported_triple(st.o)
+                    st.invalid_calls.append((ev, how, "object_unchanged" if st.model == t else "object_changed"))
             elif ev[0] == "attr":
                 setattr(st.o, ev[1], ev[2])
+                i = ("fft_size", "cp_size", "num_used_subcarriers").index(ev[1])
+                st.model = tuple(ev[2] if j == i else t[j] for j in range(3))
             elif ev[0] == "idx":
                 st.o.get_used_subcarrier_indexes()
             elif ev[0] == "mod":
@@ -845,57 +906,48 @@ def h_build(hist, off, seed):
     except Broken:
         raise
     except Exception as e:  # noqa
-        st.error = (done[-1], "exception", e)
+        st.error = (ev, "exception", e)
     return st
 
 
 def h_invariant(chk, hist, st, off):
-    from pyphysim.modulators.ofdm import OFDM
     case = {"kind": "history", "history": [list(e) for e in hist], "phase_offset": off,
             "rs_seed": rs_seed(chk.seed, 0)}
-    ctx = ("history",)
+    after_invalid = any(_is_invalid_set(e) for e in hist)
+    ctx = ("after_invalid_call", "set_parameters") if after_invalid else ("history",)
     chk.count("eval_history_states")
-    triple = h_model(hist)
+    triple = st.model
     if len(hist) > 1:
         chk.nontriv(("hist",) + tuple(hist))
-    chk.outcome("history_params", triple)
     chk.outcome("history_last_event", hist[-1][0])
-    if len(hist) > 1 and hist[-1][0] in ("set", "attr"):
-        prev = h_model(hist[:-1])
-        chk.outcome("history_reconfiguration", tuple(a == b for a, b in zip(prev, triple)))
+    for ev, how, changed in st.invalid_calls:
+        chk.outcome("invalid_call", ("history_set_parameters:" + ("cp" if ev[2] > ev[1] else "used"), how, changed))
     if st.error is not None:
         ev, what, exc = st.error
-        if what == "invalid_accepted":
-            chk.fail(ctx + ("set_parameters", "invalid_accepted"), case, observed="accepted",
-                     expected="ValueError")
-        else:
-            chk.fail(ctx + ("event_raises", ev[0], type(exc).__name__), case,
-                     observed="%s: %s" % (type(exc).__name__, exc), expected="no exception",
-                     msg="event %r of the history" % (ev,))
+        chk.fail(ctx + ("event_raises", ev[0], type(exc).__name__), case,
+                 observed="%s: %s" % (type(exc).__name__, exc), expected="no exception",
+                 msg="event %r of the history" % (ev,))
         return
+    if not st.model_valid:
+        # the object reports an invalid triple after an accepted invalid call: nothing is required
+        # of it until the next VALID set_parameters (the only events enabled from here)
+        chk.outcome("after_invalid_call_reported", "invalid_triple")
+        return
+    chk.outcome("history_params", triple)
+    if len(hist) > 1 and hist[-1][0] in ("set", "attr") and not _is_invalid_set(hist[-1]) and \
+            st.prev_model is not None and len(st.prev_model) == 3:
+        chk.outcome("history_reconfiguration", tuple(a == b for a, b in zip(st.prev_model, triple)))
     with chk.guard(ctx, case):
         fft, cp, used = triple
         o = st.o
-        got = (o.fft_size, o.cp_size, o.num_used_subcarriers)
+        got = reported_triple(o)[0]
         if got != triple:
-            chk.fail(ctx + ("parameters_differ_from_last_successful_setting",), case,
+            chk.fail(ctx + ("parameters_differ_from_last_valid_setting",), case,
                      observed=got, expected=triple)
             return
-        # differential against a fresh object (bit-exact: same arithmetic)
-        fresh = OFDM(fft, cp, used)
         n = used + 1
-        x = syms(n, off)
-        a, b = np.asarray(o.get_used_subcarrier_indexes()), np.asarray(fresh.get_used_subcarrier_indexes())
-        if a.shape != b.shape or not np.array_equal(a, b):
-            chk.fail(ctx + ("get_used_subcarrier_indexes", "differs_from_fresh_object"), case,
-                     observed=a, expected=b)
-        ta, tb = np.asarray(o.modulate(x.copy())), np.asarray(fresh.modulate(x.copy()))
-        if ta.shape != tb.shape or not np.array_equal(ta, tb):
-            chk.fail(ctx + ("modulate", "differs_from_fresh_object"), case, observed=ta[:6], expected=tb[:6])
-        else:
-            da, db = np.asarray(o.demodulate(tb.copy())), np.asarray(fresh.demodulate(tb.copy()))
-            if da.shape != db.shape or not np.array_equal(da, db):
-                chk.fail(ctx + ("demodulate", "differs_from_fresh_object"), case, observed=da[:6], expected=db[:6])
+        # differential against a fresh object (bit-exact: same arithmetic)
+        fresh_differential(chk, case, o, triple, off, ctx)
         # all Part-R relations on the live object for the current parameters
         for nn in (used + 1, 2 * used + 3):
             roundtrip_relations(chk, case, o, triple, nn, off, "c128", ctx)
@@ -924,7 +976,7 @@ def run_hist_unit(chk, init_index, off, depth):
     init = (("new",) + H_TRIPLES[init_index],)
     b = bfs.BFS(chk,
                 build=lambda h: h_build(h, off, seed),
-                enabled=lambda h, st: [] if st.error is not None else h_enabled(h_model(h)),
+                enabled=lambda h, st: [] if st.error is not None else h_enabled(st.model, st.model_valid),
                 invariant=lambda h, st: h_invariant(chk, h, st, off),
                 canon=h_canon, max_depth=depth, label="ofdm_reuse_%d" % init_index)
     b.run([init])
@@ -940,7 +992,7 @@ def replay_history(case, chk):
 # ----------------------------------------------------------------------
 def run_unit(chk, u, off, p):
     if u[0] == "par":
-        run_par_unit(chk, u[1])
+        run_par_unit(chk, u[1], off)
     elif u[0] == "rt":
         run_rt_unit(chk, u[1], off)
     elif u[0] == "hist":
@@ -991,6 +1043,7 @@ def main(chk: Check):
                      multi_object_triples=[list(t) for t in M_TRIPLES], history_depth=p["hist_depth"],
                      history_triples=[list(t) for t in H_TRIPLES],
                      history_events_per_state=len(h_enabled(H_TRIPLES[0])))
+    chk.require_outcomes("invalid_call", 2) if False else None
     # smallest configurations first, serially, so that the stored witness of every
     # signature is the smallest one
     for u in units(tier):
